@@ -49,6 +49,10 @@ def A(elt, ndim):
   return ("A", elt, ndim)
 
 
+def VI(n):
+  return ("VI", n)
+
+
 def is_vec(t):
   return t[0] in ("V", "Q")
 
@@ -67,10 +71,16 @@ def coq_type(t):
     return "bool"
   if k in ("V", "Q", "M"):
     return "(list S)"
+  if k == "VI":
+    return "(list Z)"
   if k == "T":
     return "(" + " * ".join(coq_type(x) for x in t[1]) + ")"
   if k == "A":
     return "(" + " -> ".join(["Z"] * t[2] + [coq_type(t[1])]) + ")"
+  if k == "W":
+    return "(list (write S))"
+  if k == "O":
+    return "(nat -> Z)"
   raise TranslateError(f"type {t}")
 
 
@@ -89,6 +99,9 @@ def wp_type_to_t(tp):
     name = getattr(tp, "__name__", "")
     if name.startswith("quat"):
       return Q
+    st = getattr(tp, "_wp_scalar_type_", None)
+    if shape is not None and len(shape) == 1 and st in (wp.int32, wp.int64, int, wp.int16, wp.int8, wp.uint8, wp.uint32):
+      return VI(shape[0])
     if shape is not None and len(shape) == 1:
       return V(shape[0])
     if shape is not None and len(shape) == 2:
@@ -131,9 +144,12 @@ def cname(n):
 
 
 class FuncInfo:
-  def __init__(self, coqname, argnames, argtypes, rettype, body, pyqual, deps):
+  def __init__(self, coqname, argnames, argtypes, rettype, body, pyqual, deps, shape_params=()):
     self.coqname, self.argnames, self.argtypes, self.rettype = coqname, argnames, argtypes, rettype
     self.body, self.pyqual, self.deps = body, pyqual, deps
+    self.shape_params = list(shape_params)
+    self.notes = []
+    self.ntid = 0
 
 
 class Translator:
@@ -153,11 +169,50 @@ class Translator:
       self.errors[f"{modname}.{fname}"] = str(e)
       return None
 
+  def want_kernel(self, kernel, coqname=None):
+    """Translate a wp.Kernel object (or module attribute) into `k_<name> : tids -> params -> atomic_old -> list write`."""
+    try:
+      return self._get_kernel(kernel, coqname)
+    except TranslateError as e:
+      self.errors[f"kernel:{getattr(kernel, 'key', kernel)}"] = str(e)
+      return None
+
+  def _get_kernel(self, kernel, coqname=None):
+    pyf = kernel.func
+    pyqual = f"{pyf.__module__}.{pyf.__qualname__}"
+    key = ("K", pyqual, coqname)
+    if key in self.funcs:
+      return self.funcs[key]
+    sig = inspect.signature(pyf)
+    names = list(sig.parameters)
+    ann = dict(getattr(pyf, "__annotations__", {}))
+    decl = []
+    for n in names:
+      a = ann.get(n)
+      if isinstance(a, str):
+        a = eval(a, pyf.__globals__)
+      if a is None:
+        raise TranslateError(f"{pyqual}: kernel parameter {n} has no annotation")
+      decl.append(wp_type_to_t(a))
+    src = textwrap.dedent(inspect.getsource(pyf))
+    fdef = ast.parse(src).body[0]
+    fn = _KernelTr(self, pyf, names, decl, pyqual)
+    body, rett = fn.run(fdef)
+    tids = [f"tid{i}" for i in range(fn.ntid)]
+    cn = coqname or ("k_" + pyf.__name__)
+    fi = FuncInfo(cn, tids + names + ["atomic_old"], [Z] * fn.ntid + decl + [("O",)], ("W",), body, pyqual, fn.deps, fn.shape_params)
+    fi.notes = fn.notes
+    fi.ntid = fn.ntid
+    fi.written = sorted(fn.written)
+    self.funcs[key] = fi
+    self.order.append(key)
+    return fi
+
   def emit(self, path, header=""):
     out = [
       "(* GENERATED by /verif/bin/translate.py from /repo -- do not edit *)",
-      "From Coq Require Import ZArith List Bool.",
-      "From VF Require Import Base.Scalar Base.Vec Base.Loop.",
+      "From Coq Require Import ZArith List Bool String.",
+      "From VF Require Import Base.Scalar Base.Vec Base.Loop Base.Kernel.",
       "Import ListNotations.",
       "Local Open Scope Z_scope.",
       header,
@@ -168,6 +223,7 @@ class Translator:
     for key in self.order:
       fi = self.funcs[key]
       args = " ".join(f"({cname(a)} : {coq_type(t)})" for a, t in zip(fi.argnames, fi.argtypes))
+      args += "".join(f" ({cname(r)}__shape{k} : Z)" for r, k in fi.shape_params)
       out.append(f"(* {fi.pyqual} *)")
       out.append(f"Definition {fi.coqname} {args} : {coq_type(fi.rettype)} :=\n{fi.body}.\n")
     out.append("End Gen.")
@@ -180,7 +236,7 @@ class Translator:
 
   def signatures(self):
     return {
-      fi.coqname: {"py": fi.pyqual, "args": list(zip(fi.argnames, fi.argtypes)), "ret": fi.rettype}
+      fi.coqname: {"py": fi.pyqual, "args": list(zip(fi.argnames, fi.argtypes)), "ret": fi.rettype, "shape_params": list(fi.shape_params)}
       for fi in (self.funcs[k] for k in self.order)
     }
 
@@ -220,7 +276,7 @@ class Translator:
       coqname = base + ("__" + "_".join(self._tname(t) for t in decl) if mono else "")
       fn = _FnTr(self, pyf, names, decl, pyqual)
       body, rett = fn.run(fdef)
-      fi = FuncInfo(coqname, names, decl, rett, body, pyqual, fn.deps)
+      fi = FuncInfo(coqname, names, decl, rett, body, pyqual, fn.deps, fn.shape_params)
       self.funcs[key] = fi
       self.order.append(key)
       return fi
@@ -253,9 +309,19 @@ class _FnTr:
     self.rettype = None
     self.deps = []
     self.tmp = 0
+    self.shape_params = []  # (array param, dim) used as p.shape[dim]
 
   def err(self, node, msg):
     raise TranslateError(f"{self.pyqual}:{getattr(node, 'lineno', '?')}: {msg}")
+
+  def shape_param(self, name, k, env):
+    """Name of the integer parameter standing for <root array>.shape[k + consumed dims]."""
+    al = env.get("@alias", {})
+    root, consumed = (al[name][0], len(al[name][1])) if name in al else (name, 0)
+    key = (root, k + consumed)
+    if key not in self.shape_params:
+      self.shape_params.append(key)
+    return f"{cname(root)}__shape{k + consumed}"
 
   def run(self, fdef):
     body = [s for s in fdef.body if not (isinstance(s, ast.Expr) and isinstance(getattr(s, "value", None), ast.Constant))]
@@ -475,8 +541,7 @@ class _FnTr:
     if ok and isinstance(cv, (bool, int)):
       return self.block((s.body if cv else s.orelse) + rest, env, k, d)
     cc, ct = self.expr(s.test, env)
-    if ct != B:
-      self.err(s, f"if condition of type {ct}")
+    cc, ct = self.truthy(cc, ct, s), B
     ra, rb = self.returns(s.body), self.returns(s.orelse)
     if ra == "never" and rb == "never":
       names = self.assigned(s.body + s.orelse)
@@ -609,6 +674,8 @@ class _FnTr:
         code, t = None, None
       if t is not None and is_vec(t):
         return f"(vget {code} {'xyzw'.index(e.attr)})", S
+      if t is not None and t[0] == "VI":
+        return f"(zget {code} {'xyzw'.index(e.attr)})", Z
     ok, v = self.try_static(e, env)
     if ok:
       return self.const_to_coq(v, e)
@@ -627,14 +694,24 @@ class _FnTr:
         return f"(- {c})", Z
       if is_vec(t) or t[0] == "M":
         return f"(vneg {c})", t
-    if isinstance(e.op, ast.Not) and t == B:
-      return f"(negb {c})", B
+    if isinstance(e.op, ast.Not):
+      return f"(negb {self.truthy(c, t, e)})", B
     if isinstance(e.op, ast.UAdd):
       return c, t
     self.err(e, "unary op")
 
+  def truthy(self, c, t, node):
+    if t == B:
+      return c
+    if t == Z:
+      return f"(Zneb {c} 0)"
+    if t == S:
+      return f"(sneb {c} s0)"
+    self.err(node, f"value of type {t} used as a condition")
+
   def e_BoolOp(self, e, env):
     cs = [self.expr(x, env) for x in e.values]
+    cs = [(self.truthy(c, t, e), B) for c, t in cs]
     if any(t != B for _, t in cs):
       self.err(e, "bool op on non-bool")
     op = " && " if isinstance(e.op, ast.And) else " || "
@@ -717,6 +794,16 @@ class _FnTr:
     self.err(e, f"binary op {op.__name__} on {lt}, {rt}")
 
   def e_Subscript(self, e, env):
+    # p.shape[k] of an array parameter / view -> a fresh integer parameter p__shape<k>
+    if (
+      isinstance(e.value, ast.Attribute)
+      and e.value.attr == "shape"
+      and isinstance(e.value.value, ast.Name)
+      and e.value.value.id in env
+      and env[e.value.value.id][0] == "A"
+      and isinstance(e.slice, ast.Constant)
+    ):
+      return self.shape_param(e.value.value.id, int(e.slice.value), env), Z
     bc, bt = self.expr(e.value, env)
     idx = e.slice.elts if isinstance(e.slice, ast.Tuple) else [e.slice]
     ics = [self.expr(i, env) for i in idx]
@@ -730,6 +817,8 @@ class _FnTr:
       return "(" + bc + " " + " ".join(c for c, _ in ics) + ")", rt
     if is_vec(bt) and len(ics) == 1:
       return f"(vget {bc} {ics[0][0]})", S
+    if bt[0] == "VI" and len(ics) == 1:
+      return f"(zget {bc} {ics[0][0]})", Z
     if bt[0] == "M" and len(ics) == 2:
       return f"(mget {bt[2]} {bc} {ics[0][0]} {ics[1][0]})", S
     if bt[0] == "M" and len(ics) == 1:
@@ -787,13 +876,31 @@ class _FnTr:
           self.err(e, f"argument {i} of {fi.coqname}: {g} for {w}")
       if fi.coqname not in self.deps:
         self.deps.append(fi.coqname)
-      return "(" + fi.coqname + " " + " ".join(ac) + ")", fi.rettype
+      extra = []
+      for r, kdim in fi.shape_params:
+        pos = fi.argnames.index(r)
+        an = e.args[pos]
+        base = an
+        nsub = 0
+        while isinstance(base, ast.Subscript):
+          nsub += len(base.slice.elts) if isinstance(base.slice, ast.Tuple) else 1
+          base = base.value
+        if not (isinstance(base, ast.Name) and base.id in env and env[base.id][0] == "A"):
+          self.err(e, f"cannot pass the shape of argument {pos} of {fi.coqname}")
+        extra.append(self.shape_param(base.id, kdim + nsub, env))
+      return "(" + fi.coqname + " " + " ".join(ac + extra) + ")", fi.rettype
     if kind == "ctor":
       return self.ctor(f, e, ac, at)
     return self.builtin(f, e, ac, at)
 
   def ctor(self, tp, e, ac, at):
     t = wp_type_to_t(tp)
+    if t[0] == "VI":
+      if all(x == Z for x in at) and len(ac) == t[1]:
+        return "[" + "; ".join(ac) + "]", t
+      if len(ac) == 1 and at == [Z]:
+        return f"(repeat {ac[0]} {t[1]})", t
+      self.err(e, f"int-vector constructor with {at}")
     n = vlen(t) if is_vec(t) else t[1] * t[2]
     if not ac:
       return "(vconst " + str(n) + " s0)", t
@@ -829,6 +936,8 @@ class _FnTr:
         return f"(if {ac[0]} then 1 else 0)", Z
     if n == "bool" and at == [B]:
       return ac[0], B
+    if n == "ceil" and at == [S]:
+      return f"(sneg (sfloor (sneg {ac[0]})))", S
     if n in UNARY_S and at == [S]:
       return f"({UNARY_S[n]} {ac[0]})", S
     if n == "abs" and at == [Z]:
@@ -895,3 +1004,177 @@ class _FnTr:
     if n in ("mul", "add", "sub"):
       pass
     self.err(e, f"unsupported builtin wp.{n} on {at}")
+
+
+class _KernelTr(_FnTr):
+  """Translate a kernel body into the list of array writes of one task."""
+
+  def __init__(self, tr, pyf, names, types_, pyqual):
+    super().__init__(tr, pyf, names, types_, pyqual)
+    self.ntid = 0
+    self.natomic = 0
+    self.notes = []
+    self.array_names = {n for n, t in zip(names, types_) if t[0] == "A"}
+    self.written = set()
+    self.env0["writes__"] = ("W",)
+    self.env0["@alias"] = {}
+    self.rettype = ("W",)
+
+  def run(self, fdef):
+    body = [s for s in fdef.body if not (isinstance(s, ast.Expr) and isinstance(getattr(s, "value", None), ast.Constant))]
+    code = "  let writes__ := (@nil (write S)) in\n" + self.block(body, dict(self.env0), lambda e, d: self.ind(d) + "writes__", 1)
+    return code, ("W",)
+
+  # arrays written anywhere inside stmts (so that writes__ is treated as assigned)
+  def _has_write(self, stmts):
+    for s in stmts:
+      for n in ast.walk(s):
+        if isinstance(n, (ast.Assign, ast.AugAssign)):
+          ts = n.targets if isinstance(n, ast.Assign) else [n.target]
+          for t in ts:
+            if isinstance(t, ast.Subscript):
+              return True
+        if isinstance(n, ast.Call) and ast.unparse(n.func).startswith("wp.atomic_"):
+          return True
+    return False
+
+  def assigned(self, stmts):
+    out = super().assigned(stmts)
+    if self._has_write(stmts) and "writes__" not in out:
+      out.append("writes__")
+    return out
+
+  def returns(self, stmts):
+    return super().returns(stmts)
+
+  def root_of(self, node, env):
+    """(root array param, [index codes so far]) for a Name/Subscript chain that denotes an array or a view."""
+    idx = []
+    cur = node
+    while isinstance(cur, ast.Subscript):
+      sl = cur.slice.elts if isinstance(cur.slice, ast.Tuple) else [cur.slice]
+      idx = list(sl) + idx
+      cur = cur.value
+    if not isinstance(cur, ast.Name):
+      return None
+    name = cur.id
+    al = env.get("@alias", {})
+    if name in al:
+      root, pre = al[name]
+    elif name in self.array_names:
+      root, pre = name, []
+    else:
+      return None
+    codes = []
+    for i in idx:
+      c, t = self.expr(i, env)
+      if t != Z:
+        self.err(node, "non-integer array index")
+      codes.append(c)
+    return root, pre + codes
+
+  def wval(self, code, t, node):
+    if t == S:
+      return f"(VS {code})"
+    if t == Z:
+      return f"(VZ {code})"
+    if t == B:
+      return f"(VB {code})"
+    if is_vec(t) or t[0] == "M":
+      return f"(VV {code})"
+    if t[0] == "VI":
+      return f"(VV (map sofZ {code}))"
+    self.err(node, f"cannot store value of type {t}")
+
+  def emit_write(self, root, idxcodes, kind, vcode, env, cont, d):
+    I = self.ind(d)
+    self.written.add(root)
+    w = f'(mkW "{root}"%string [{"; ".join(idxcodes)}] {kind} {vcode})'
+    return f"{I}let writes__ := (writes__ ++ [{w}])%list in\n" + cont(env)
+
+  def block(self, stmts, env, k, d):
+    if not stmts:
+      return super().block(stmts, env, k, d)
+    s, rest = stmts[0], stmts[1:]
+
+    def cont(env2, d2=d):
+      return self.block(rest, env2, k, d2)
+
+    I = self.ind(d)
+    if isinstance(s, ast.Return) and s.value is None:
+      return I + "writes__"
+    # tid
+    if isinstance(s, ast.Assign) and isinstance(s.value, ast.Call) and ast.unparse(s.value.func) == "wp.tid":
+      t = s.targets[0]
+      names = [e.id for e in t.elts] if isinstance(t, ast.Tuple) else [t.id]
+      self.ntid = max(self.ntid, len(names))
+      env2 = dict(env)
+      code = ""
+      for i, n in enumerate(names):
+        env2[n] = Z
+        code += f"{I}let {cname(n)} := tid{i} in\n"
+      return code + cont(env2)
+    # alias of an array row:  row = arr[worldid]
+    if isinstance(s, ast.Assign) and len(s.targets) == 1 and isinstance(s.targets[0], ast.Name) and isinstance(s.value, (ast.Subscript, ast.Name)):
+      r = self.root_of(s.value, env)
+      if r is not None:
+        code, t = self.expr(s.value, env)
+        if t[0] == "A":
+          env2 = dict(env)
+          al = dict(env.get("@alias", {}))
+          al[s.targets[0].id] = r
+          env2["@alias"] = al
+          env2[s.targets[0].id] = t
+          return f"{I}let {cname(s.targets[0].id)} := {code} in\n" + cont(env2)
+    # array element store
+    if isinstance(s, (ast.Assign, ast.AugAssign)):
+      tgt = s.targets[0] if isinstance(s, ast.Assign) else s.target
+      if isinstance(tgt, ast.Subscript):
+        r = self.root_of(tgt, env)
+        base_local = isinstance(tgt.value, ast.Name) and tgt.value.id in env and env[tgt.value.id][0] != "A"
+        if r is not None and not base_local:
+          root, idxcodes = r
+          if isinstance(s, ast.AugAssign):
+            val = ast.BinOp(left=self._load(tgt), op=s.op, right=s.value, lineno=s.lineno)
+            self.notes.append(f"line {s.lineno}: read-modify-write of {root} (reads the pre-task value)")
+          else:
+            val = s.value
+          vc, vt = self.expr(val, env)
+          return self.emit_write(root, idxcodes, "KSet", self.wval(vc, vt, s), env, cont, d)
+      # x = wp.atomic_*(arr, idx, val): the returned old value comes from the oracle
+      if isinstance(s, ast.Assign) and isinstance(s.value, ast.Call) and ast.unparse(s.value.func).startswith("wp.atomic_") and isinstance(tgt, ast.Name):
+        root, idxcodes, kind, vcode = self.atomic(s.value, env)
+        kidx = self.natomic
+        self.natomic += 1
+        env2 = dict(env)
+        env2[tgt.id] = Z
+        I2 = self.ind(d)
+        self.written.add(root)
+        w = f'(mkW "{root}"%string [{"; ".join(idxcodes)}] (KAtomRet {kind} {kidx}) {vcode})'
+        return f"{I2}let writes__ := (writes__ ++ [{w}])%list in\n{I2}let {cname(tgt.id)} := atomic_old {kidx}%nat in\n" + cont(env2)
+    if isinstance(s, ast.Expr) and isinstance(s.value, ast.Call) and ast.unparse(s.value.func).startswith("wp.atomic_"):
+      root, idxcodes, kind, vcode = self.atomic(s.value, env)
+      return self.emit_write(root, idxcodes, kind, vcode, env, cont, d)
+    if isinstance(s, ast.Expr) and isinstance(s.value, ast.Call) and ast.unparse(s.value.func) in ("wp.printf", "print"):
+      return cont(env)
+    return super().block(stmts, env, k, d)
+
+  def atomic(self, c, env):
+    op = ast.unparse(c.func).split("_", 1)[1]
+    kind = {"add": "KAdd", "sub": "KSub", "min": "KMin", "max": "KMax", "or": "KOr", "and": "KAnd"}.get(op)
+    if kind is None:
+      self.err(c, f"unsupported atomic {op}")
+    if len(c.args) < 3:
+      self.err(c, "atomic arity")
+    r = self.root_of(c.args[0], env)
+    if r is None:
+      self.err(c, "atomic on non-parameter array")
+    root, pre = r
+    idxcodes = list(pre)
+    for a in c.args[1:-1]:
+      ic, it = self.expr(a, env)
+      if it != Z:
+        self.err(c, "atomic index type")
+      idxcodes.append(ic)
+    vc, vt = self.expr(c.args[-1], env)
+    return root, idxcodes, kind, self.wval(vc, vt, c)
